@@ -1,38 +1,41 @@
 (* C13 - Well-formed docstrings parse back to the structure that was written.  Statements only. *)
 From Coq Require Import List Ascii String Bool Arith.
-From Verif Require Import Model.C13_strings Model.C13_google Model.C13_google_spec Model.C13_sphinx Proofs.C13_strings Proofs.C13_google Proofs.C13_sphinx.
+From Verif Require Import Model.C13_strings Model.C13_google Model.C13_google_spec Model.C13_sphinx Model.C13_numpy Model.C13_numpy_spec
+  Model.C13_sphinx_spec Proofs.C13_strings Proofs.C13_google Proofs.C13_sphinx Proofs.C13_numpy Proofs.C13_sphinx_full.
 Import ListNotations.
 Open Scope list_scope.
 Open Scope nat_scope.
 
-(* Google style, default options, any indentation >= 1, any parent: every list of free-text, item (Parameters, Other
-   Parameters, Raises, Warns, Attributes, Functions, Classes, Modules, Returns, Yields, Receives, under every alias in the
-   keyword table regenerated from the source, with or without section title) and admonition sections that satisfies the
-   decidable predicate wf_secs parses back to exactly what was written: same kinds in written order, same titles, item
-   names, annotations (written, else the parent's), default values and descriptions (multi-line, blank lines, deeper
-   indentation preserved).  wf_secs carries no known-gap exclusion any more: findings C13-F1 and C13-F2 are repaired in the
-   source and the model follows the repaired code (non-greedy type group; annotation reset per Attributes item). *)
-Theorem C13_google_roundtrip : forall c ind secs, 1 <= ind -> wf_secs c secs = true ->
-  parse_google default_opts c (render_google ind secs) = POk (expect_google c secs).
+(* Google style, EVERY value of the item options (returns_multiple_items, returns_named_value, receives_multiple_items,
+   receives_named_value), any indentation >= 1, any parent: every list of free-text, item (Parameters, Other Parameters,
+   Raises, Warns, Attributes, Functions, Classes, Modules, Returns, Yields, Receives, under every alias in the keyword table
+   regenerated from the source, with or without section title; Returns / Yields / Receives sections written the way the
+   option values in force prescribe: WRet) and admonition sections that satisfies the decidable predicate wf_secs parses
+   back to exactly what was written: same kinds in written order, same titles, item names, annotations (written, else the
+   parent's), default values and descriptions (multi-line, blank lines, deeper indentation preserved; blank lines between
+   items belong to no description).  wf_secs carries no known-gap exclusion: findings C13-F1, F2 and F9 are repaired in the
+   source and the model follows the repaired code. *)
+Theorem C13_google_roundtrip : forall o c ind secs, 1 <= ind -> wf_secs o c secs = true ->
+  parse_google o c (render_google ind secs) = POk (expect_google c secs).
 Proof. exact google_roundtrip. Qed.
 Print Assumptions C13_google_roundtrip.
 
 (* Section i of the parsed document equals what section i parses to when it is the whole docstring: nothing leaks across
    section boundaries. *)
-Theorem C13_no_leak : forall c ind secs i s, 1 <= ind -> wf_secs c secs = true -> nth_error secs i = Some s ->
+Theorem C13_no_leak : forall o c ind secs i s, 1 <= ind -> wf_secs o c secs = true -> nth_error secs i = Some s ->
   exists parsed,
-    parse_google default_opts c (render_google ind secs) = POk parsed /\
+    parse_google o c (render_google ind secs) = POk parsed /\
     nth_error parsed i = Some (expect_sec c s) /\
-    parse_google default_opts c (render_google ind [s]) = POk [expect_sec c s].
+    parse_google o c (render_google ind [s]) = POk [expect_sec c s].
 Proof. exact google_no_leak. Qed.
 Print Assumptions C13_no_leak.
 
 (* Parameters / Other Parameters: an annotation omitted in the docstring is the parent signature's, the default value is
    always the parent signature's (Parameters.__getitem__ ignores leading stars). *)
-Theorem C13_signature_fallback : forall c ind h t its k, (k = KParams \/ k = KOther) -> 1 <= ind ->
-  wf_secs c [WItems k h t its] = true ->
+Theorem C13_signature_fallback : forall o c ind h t its k, (k = KParams \/ k = KOther) -> 1 <= ind ->
+  wf_secs o c [WItems k h t its] = true ->
   exists items,
-    parse_google default_opts c (render_google ind [WItems k h t its]) = POk [GItems k t items] /\
+    parse_google o c (render_google ind [WItems k h t its]) = POk [GItems k t items] /\
     Forall2 (fun it p =>
                p_name p = Some (oapp (w_name it)) /\
                p_ann p = match w_ann it with Some a => Some a | None => parent_annotation c (oapp (w_name it)) end /\
@@ -42,10 +45,10 @@ Print Assumptions C13_signature_fallback.
 
 (* Returns / Yields / Receives: an omitted annotation is _annotation_from_parent of the return annotation (generator
    slot by section kind, tuple element by item index when several items are documented). *)
-Theorem C13_signature_fallback_returns : forall c ind h t its k, (k = KReturns \/ k = KYields \/ k = KReceives) -> 1 <= ind ->
-  wf_secs c [WItems k h t its] = true ->
+Theorem C13_signature_fallback_returns : forall o c ind h t its k, (k = KReturns \/ k = KYields \/ k = KReceives) -> 1 <= ind ->
+  wf_secs o c [WItems k h t its] = true ->
   exists items,
-    parse_google default_opts c (render_google ind [WItems k h t its]) = POk [GItems k t items] /\
+    parse_google o c (render_google ind [WItems k h t its]) = POk [GItems k t items] /\
     forall i it, nth_error its i = Some it ->
       exists p, nth_error items i = Some p /\
         p_ann p = match w_ann it with
@@ -55,10 +58,31 @@ Theorem C13_signature_fallback_returns : forall c ind h t its k, (k = KReturns \
 Proof. exact google_signature_fallback_returns. Qed.
 Print Assumptions C13_signature_fallback_returns.
 
+(* The same under any option values (sections written in the corresponding mode): the parent's tuple is split by the number
+   of documented items, never by the value of *_multiple_items. *)
+Theorem C13_signature_fallback_returns_modes : forall o c ind m n h t its k, (k = KReturns \/ k = KYields \/ k = KReceives) -> 1 <= ind ->
+  wf_secs o c [WRet m n k h t its] = true ->
+  exists items,
+    parse_google o c (render_google ind [WRet m n k h t its]) = POk [GItems k t items] /\
+    forall i it, nth_error its i = Some it ->
+      exists p, nth_error items i = Some p /\
+        p_ann p = match w_ann it with
+                  | Some a => Some a
+                  | None => annotation_from_parent c (gen_index_of k) (negb (List.length its <=? 1)) i
+                  end.
+Proof. exact google_signature_fallback_returns_modes. Qed.
+Print Assumptions C13_signature_fallback_returns_modes.
+
+(* Non-vacuity of the option modes: a document with single-item unnamed sections is well-formed under
+   returns_multiple_items=False, returns_named_value=False. *)
+Theorem C13_modes_wf_satisfiable : wf_secs modes_opts modes_ctx modes_doc = true.
+Proof. exact modes_wf. Qed.
+Print Assumptions C13_modes_wf_satisfiable.
+
 (* The witnesses of the repaired findings C13-F1 (a typed Returns item whose description contains "):") and C13-F2 (an
    Attributes item without type after a typed one, unknown to the parent) are well-formed and parse back as written. *)
 Theorem C13_former_gaps_roundtrip :
-  (wf_secs no_parent f1_witness = true /\ wf_secs f2_ctx f2_witness = true) /\
+  (wf_secs default_opts no_parent f1_witness = true /\ wf_secs default_opts f2_ctx f2_witness = true) /\
   parse_google default_opts no_parent (render_google 4 f1_witness) =
     POk [GText (s_of "Summary.");
          GItems KReturns None [mkItem (Some (s_of "x")) (Some (s_of "int")) (s_of "see f(a): b") None]] /\
@@ -71,7 +95,7 @@ Print Assumptions C13_former_gaps_roundtrip.
 
 (* Non-vacuity: a six-section document (aliases, title, blank lines, deeper indentation, stars, parent fallback for
    annotation, default and tuple elements, an admonition) satisfies wf_secs. *)
-Theorem C13_wf_satisfiable : wf_secs sample_ctx sample_doc = true.
+Theorem C13_wf_satisfiable : wf_secs default_opts sample_ctx sample_doc = true.
 Proof. exact sample_wf. Qed.
 Print Assumptions C13_wf_satisfiable.
 
@@ -98,3 +122,88 @@ Print Assumptions C13_sphinx_type_order_refuted_F8.
 Theorem C13_sphinx_wf_satisfiable : wf_sphinx sphinx_sample_text sphinx_sample = true.
 Proof. exact sphinx_sample_wf. Qed.
 Print Assumptions C13_sphinx_wf_satisfiable.
+
+(* Numpydoc style, default options, any parent: every docstring made of an optional leading free text and any list of item
+   sections (Parameters, Other Parameters with several names per item, `, optional` and the three default spellings;
+   Attributes; Functions / Classes / Modules; Raises / Warns; Returns / Yields / Receives in the `name : type`, `name :`,
+   `: type`, `:` spellings) under every alias of the keyword table regenerated from numpy.py, admonitions and Deprecated
+   sections, with multi-line / blank-line / deeper-indented descriptions (dash-only lines included) and blank lines between
+   items, that satisfies the decidable predicate wf_nsecs parses back to exactly what was written: kinds in written order,
+   names, annotations (written, else the parent's: per name for parameters, per tuple element for several Returns / Yields /
+   Receives items), defaults, descriptions.  The one hypothesis besides well-formedness is the decidable complement of the
+   known finding C13-F6 (a single Yields / Receives item without type whose parent part is a tuple).  Finding C13-F5 (the
+   bare `name` spelling) is outside the written structure: render_numpy always writes `name :`. *)
+Theorem C13_numpy_roundtrip_modulo_known : forall c secs, wf_nsecs c secs = true -> gap_F6 c secs = false ->
+  parse_numpy n_default_opts c (render_numpy secs) = POk (expect_numpy c secs).
+Proof. exact numpy_roundtrip. Qed.
+Print Assumptions C13_numpy_roundtrip_modulo_known.
+
+(* Numpy: section i of the parsed document is what section i parses to on its own. *)
+Theorem C13_numpy_no_leak : forall c secs i s, wf_nsecs c secs = true -> gap_F6 c secs = false -> nth_error secs i = Some s ->
+  exists parsed,
+    parse_numpy n_default_opts c (render_numpy secs) = POk parsed /\
+    nth_error parsed i = Some (n_expect_sec c s) /\
+    parse_numpy n_default_opts c (render_numpy [s]) = POk [n_expect_sec c s].
+Proof. exact numpy_no_leak. Qed.
+Print Assumptions C13_numpy_no_leak.
+
+(* Numpy Parameters / Other Parameters: every name of an item (names documented together included) gets the written type
+   and default, else its OWN annotation and default from the parent signature (the C13-F10 repair). *)
+Theorem C13_numpy_signature_fallback : forall c h its k, (k = KParams \/ k = KOther) ->
+  wf_nsecs c [NItems k h its] = true ->
+  parse_numpy n_default_opts c (render_numpy [NItems k h its]) = POk [GItems k None (flat_map (param_items c) its)].
+Proof. exact numpy_signature_fallback_params. Qed.
+Print Assumptions C13_numpy_signature_fallback.
+
+(* Finding C13-F5 in the model: the documented "just the name" spelling of a Returns item comes back as its TYPE. *)
+Theorem C13_numpy_bare_name_refuted_F5 :
+  parse_numpy n_default_opts no_parent f5_lines =
+  POk [GText (s_of "Summary.");
+       GItems KReturns None [mkItem (Some []) (Some (s_of "success")) (s_of "Whether it succeeded.") None]].
+Proof. exact numpy_bare_name_F5. Qed.
+Print Assumptions C13_numpy_bare_name_refuted_F5.
+
+(* Finding C13-F6 in the model: a well-formed document inside the gap predicate whose parse differs from what was written
+   (the single Yields item gets `int`, the first element of the parent's tuple[int, str]). *)
+Theorem C13_numpy_single_yield_refuted_F6 :
+  wf_nsecs f6_ctx f6_doc = true /\ gap_F6 f6_ctx f6_doc = true /\
+  parse_numpy n_default_opts f6_ctx (render_numpy f6_doc) =
+    POk [GText (s_of "Summary."); GItems KYields None [mkItem (Some []) (Some (s_of "int")) (s_of "Both.") None]] /\
+  expect_numpy f6_ctx f6_doc =
+    [GText (s_of "Summary."); GItems KYields None [mkItem (Some []) (Some (s_of "tuple[int, str]")) (s_of "Both.") None]].
+Proof. exact numpy_single_yield_F6. Qed.
+Print Assumptions C13_numpy_single_yield_refuted_F6.
+
+(* Non-vacuity of the Numpy theorem: a six-section document satisfies its hypotheses. *)
+Theorem C13_numpy_wf_satisfiable : wf_nsecs n_sample_ctx n_sample_doc = true /\ gap_F6 n_sample_ctx n_sample_doc = false.
+Proof. exact n_sample_wf. Qed.
+Print Assumptions C13_numpy_wf_satisfiable.
+
+(* Sphinx style, the full field list: free text, then any list, in any order, of :param: (optional inline type), :type:,
+   :var:, :vartype:, :raises:, :returns:, :rtype: fields under every field-name alias, descriptions over several lines with
+   blank lines inside and after them and deeper-indented lines, the same name documented as parameter and as attribute,
+   repeated exception types.  If the field list is well-formed (each name once per kind, at most one type field per name,
+   at most one :rtype:) and outside the decidable known gap C13-F8 (a :type: / :vartype: field AFTER its :param: / :var: field
+   without inline type while the parent annotates the name), parsing gives back the text and the items grouped in Sphinx's
+   fixed order text / parameters / attributes / returns / raises, written order kept inside each group, every description
+   as its lines without indentation joined by single blanks, every annotation by the documented precedence inline type,
+   then the type field wherever it stands, then the parent's.  Supersedes C13_sphinx_roundtrip_partial. *)
+Theorem C13_sphinx_roundtrip_modulo_known : forall c ra text fields,
+  wf_sphinx_full text fields = true -> gap_F8 c fields = false ->
+  parse_sphinx c ra (render_sphinx_full text fields) = expect_sphinx_full c ra text fields.
+Proof. exact sphinx_roundtrip_full. Qed.
+Print Assumptions C13_sphinx_roundtrip_modulo_known.
+
+(* Finding C13-F8 as an instance of the gap predicate: a well-formed field list inside gap_F8 (it renders to the F8 witness
+   lines) whose parse differs from what was written. *)
+Theorem C13_sphinx_type_after_param_refuted_F8 :
+  wf_sphinx_full [s_of "Summary."] f8_fields = true /\ gap_F8 f8_ctx f8_fields = true /\
+  render_sphinx_full [s_of "Summary."] f8_fields = f8_lines /\
+  parse_sphinx f8_ctx true (render_sphinx_full [s_of "Summary."] f8_fields) <> expect_sphinx_full f8_ctx true [s_of "Summary."] f8_fields.
+Proof. exact sphinx_F8_in_gap. Qed.
+Print Assumptions C13_sphinx_type_after_param_refuted_F8.
+
+(* Non-vacuity of the full Sphinx theorem: an eleven-field list with every field kind satisfies its hypotheses. *)
+Theorem C13_sphinx_full_wf_satisfiable : wf_sphinx_full xsample_text xsample = true /\ gap_F8 xsample_ctx xsample = false.
+Proof. exact xsample_wf. Qed.
+Print Assumptions C13_sphinx_full_wf_satisfiable.
